@@ -181,12 +181,22 @@ func (x *Exec) protoInterfere(cfg *Config, pd *protoDecl, o *origin) {
 		env.old = before
 		st.assume(x.specBool(env, pd.rely))
 	}
+	x.protoBefore = cfg.st.clone()
 }
 
 // protoStep: after the atomic operation: ghost updates of the matching rules,
 // then the invariant must hold.
 func (x *Exec) protoStep(cfg *Config, pd *protoDecl, o *origin, op string, aold, anew Term, pos token.Pos) {
 	fname, _ := fieldNameOf(o.STyp, o.Field)
+	// guarantee = rely: what this step did is something the other goroutines
+	// may rely on (state before the operation: x.protoBefore)
+	defer func() {
+		if pd.rely != nil && x.protoBefore != nil {
+			env := x.protoEnv(cfg, pd, o)
+			env.old = x.protoBefore
+			x.obligeInv(cfg, env, pd.rely, "protocol-guarantee", pd.strct+" step "+fname+"."+op+": ", nil, pos, 0)
+		}
+	}()
 	for _, r := range pd.rules {
 		if r.field != fname || r.op != op {
 			continue
